@@ -1,7 +1,7 @@
 """C17 - annotation aggregation equals counting (must-write / dominance)."""
 import ast
 
-from ..astutil import FuncTree, dominates
+from ..astutil import FuncTree, dominates, inline_temporaries
 from ..common import norm_stmt, site_id
 from ..deps import names_in, base_name, index_names, dep_edges, closure, forward_closure
 from ..index import AnalysisError
@@ -147,8 +147,9 @@ def run(p, report, tier):
 def check_vote_weights(p, report):
     # ---------------- R17.2
     g = p.get_func("skactiveml.utils._aggregation", "compute_vote_vectors")
-    tree = FuncTree(g.node)
-    bc = [n for n in ast.walk(g.node) if isinstance(n, ast.Call) and c01.callname(n) == "bincount"]
+    gn = inline_temporaries(g.node)     # named temporaries substituted back
+    tree = FuncTree(gn)
+    bc = [n for n in ast.walk(gn) if isinstance(n, ast.Call) and c01.callname(n) == "bincount"]
     if not bc:
         raise AnalysisError("compute_vote_vectors: np.bincount call vanished")
     bc = bc[0]
@@ -165,7 +166,7 @@ def check_vote_weights(p, report):
     # mask role: names assigned from is_unlabeled(...)
     mask_names = set()
     mask_calls = {}
-    for n in ast.walk(g.node):
+    for n in ast.walk(gn):
         if isinstance(n, ast.Assign) and isinstance(n.value, ast.Call) and c01.callname(n.value) == "is_unlabeled":
             for t in n.targets:
                 if isinstance(t, ast.Name):
@@ -173,7 +174,7 @@ def check_vote_weights(p, report):
                     mask_calls[t.id] = n.value
     for w in sorted(wnames):
         stores = []
-        for n in ast.walk(g.node):
+        for n in ast.walk(gn):
             if isinstance(n, ast.Assign) and any(isinstance(t, ast.Subscript) and base_name(t) == w for t in n.targets) \
                     and dominates(tree, n, bc_stmt):
                 stores.append(n)
@@ -227,10 +228,10 @@ def check_vote_weights(p, report):
         enc = any(isinstance(n, ast.Assign) and isinstance(n.value, ast.Call) and c01.callname(n.value) == "fit_transform"
                   and call.args and isinstance(call.args[0], ast.Name)
                   and any(isinstance(t, ast.Name) and t.id == call.args[0].id for t in n.targets)
-                  for n in ast.walk(g.node))
+                  for n in ast.walk(gn))
         if sent is not None and ast.unparse(sent) == "-1" and enc:
             okm = True
-    report.add("R17.2", g.qual, "missing mask = is_unlabeled(encoded labels, -1)", f"{g.file}:{g.node.lineno}", okm,
+    report.add("R17.2", g.qual, "missing mask = is_unlabeled(encoded labels, -1)", f"{g.file}:{gn.lineno}", okm,
                detail="mask computed on the encoder's output with the encoder's sentinel" if okm else
                "mask is not computed on the encoded labels with sentinel -1")
 
